@@ -27,7 +27,7 @@ class WorkerRun:
         env = worker_env()
         env["VERIF_JOB"] = self.jobpath
         if race:
-            env["GOMAXPROCS"] = "16"
+            env["GOMAXPROCS"] = os.environ.get("VERIF_RACE_GOMAXPROCS", "16")
             env.pop("GODEBUG", None)
             env["GORACE"] = "halt_on_error=0 history_size=5"
         self.err = open(self.errpath, "w")
